@@ -420,7 +420,7 @@ def load_findings():
 # main check
 # ---------------------------------------------------------------------------
 
-QUICK_UNIT_MAX_S = 150      # an obligation measured slower than this (on a loaded 16-core box) is thorough-only
+QUICK_UNIT_MAX_S = 250      # an obligation measured slower than this (on a loaded 16-core box) is thorough-only
 QUICK_BUDGET_CPU_S = 2000   # summed measured time of a property's quick tier (~4 min wall at -j 12)
 QUICK_MAX_UNITS = 36        # kani-compiler generates code for the harnesses one after the other (~4 s each)
 
@@ -447,13 +447,32 @@ def select_units(cat, prop, tier, only=None):
             keep.append(u)
         elif t is not None and t <= QUICK_UNIT_MAX_S:
             rest.append((0 if u.get("core") else 1, t, u))
-    rest.sort(key=lambda x: (x[0], x[1]))
-    spent = 0.0
+    # diversity first: obligations are grouped into families (name up to the shape suffix) and taken
+    # round-robin, cheapest shape of each family first, until the unit cap or the CPU budget is hit
+    import re as _re
+    fam = {}
     for pr, t, u in rest:
-        if (spent + t > QUICK_BUDGET_CPU_S or len(keep) >= QUICK_MAX_UNITS) and pr != 0:
-            continue
-        keep.append(u)
-        spent += t
+        key = _re.sub(r"-(h\d+|l\d+|\d+)(-.*)?$", "", u["name"])
+        fam.setdefault(key, []).append((t, u))
+    for k in fam:
+        fam[k].sort(key=lambda x: x[0])
+    spent = sum(min(times.get(u["name"], 0), 600) for u in keep)
+    progress = True
+    while progress:
+        progress = False
+        for k in sorted(fam, key=lambda k: fam[k][0][0] if fam[k] else 1e9):
+            if not fam[k]:
+                continue
+            t, u = fam[k][0]
+            if len(keep) >= QUICK_MAX_UNITS:
+                break
+            if spent + t > QUICK_BUDGET_CPU_S:
+                fam[k] = []
+                continue
+            fam[k].pop(0)
+            keep.append(u)
+            spent += t
+            progress = True
     order = {u["name"]: i for i, u in enumerate(us)}
     keep.sort(key=lambda u: order[u["name"]])
     return keep
